@@ -27,7 +27,8 @@ var detOps = map[string]detSpec{
 	"mrgExt": {[]int{0}, false, true}, "mrgSp": {[]int{0}, false, true},
 	"nN": {[]int{0}, false, true}, "ovEA": {[]int{0, 1}, false, false}, "ovSA": {[]int{0, 1}, false, false},
 	"tile2ext": {[]int{0}, false, true}, "tile2sp": {[]int{0}, false, false}, "qv2ext": {[]int{0}, false, true},
-	"e2qv": {[]int{0}, true, true}, "e2qa": {[]int{0}, true, true},
+	"e2qv": {[]int{0}, true, true}, "e2qa": {[]int{0}, true, true}, "s2qv": {[]int{0}, true, true},
+	"qv2sp": {[]int{0}, false, true},
 	"uni": {[]int{0, 1}, false, true}, "uniq": {[]int{0}, false, true},
 	"inter": {nil, false, false}, "diff": {nil, false, false}, "incl": {nil, false, false}, "max": {nil, false, false}, "min": {nil, false, false},
 }
